@@ -16,7 +16,7 @@ Valid(bs, sh) == IF (IF sh.style = "" THEN bs ELSE sh.style) = "document"
                  ELSE sh.parts = "type"
 \* the definition is built operation by operation (so that -simulate can walk large spaces),
 \* then the client exchange runs on operation k
-Init == /\ \E bs \in {"document", "rpc"}, tr \in {SOAPHTTP, "http://example.com/other-transport"}, ty \in {"inline", "imported"} :
+Init == /\ \E bs \in {"document", "rpc"}, tr \in {SOAPHTTP, "http://example.com/other-transport"}, ty \in {"inline", "imported", "wsdl-import"} :
              d = [tns |-> "urn:svc", bindingStyle |-> bs, location |-> "http://example.com/svc", transport |-> tr, types |-> ty, ops |-> <<>>]
         /\ k = 0 /\ inputOk \in BOOLEAN
         /\ c = CInit(<< <<"x-user", "1">> >>)
